@@ -176,7 +176,7 @@ def run(tier, seed):
     C.phase_proofs(res, PROP, THEOREMS) if os.path.exists(os.path.join(C.LEAN, "GitAiModel", "Props", "C01.lean")) else None
     n = 4000 if tier == "quick" else 100000
     bad, _ = C.phase_suite(res, "diffparse", seed, n, os.path.join(C.VERIF, "corpus", "C01", "diffparse.jsonl"))
-    nsc = 48 if tier == "quick" else 1500
+    nsc = 160 if tier == "quick" else 3000
     phase_e2e(res, [seed * 100000 + i for i in range(nsc)])
     if res.broken and not res.violations:
         phase_e2e(res, [seed * 100000 + 50000 + i for i in range(200)])
